@@ -20,7 +20,13 @@ PROP = {
             "conserved; (b) sched:* -- the extracted model WITHOUT the guard (rg_step true) is searched for the schedules that break its invariant "
             "(every way of delaying one thread in front of one operation of a two-transfer history, relay_search_list), each is replayed operation "
             "by operation on the real relay through the scripted scheduler of the overlay and judged by the oracle and by trace validation; the model "
-            "with the current source's reset (relay_search gen) must find none ; group e2e-tmux-relay: the real `trzsz -r` inside a pane of a real tmux server between the in-process client and trz/tsz (handshake parked and flushed through bypassTmuxChan to the client tty): tree identical, names, stop, status-interval restored after the relay exits",
+            "with the current source's reset (relay_search gen) must find none. PUBLICATION ORDER: the same search on the model with 'handshaking' "
+            "published by the worker (rp_step late) finds the schedules in which the input reader runs between the forward of the trigger and the "
+            "worker's first step; they are replayed on the real relay (sched:replay_publish:*); entry:* -- the client answers the trigger from inside the "
+            "Write that delivers it, fresh relays at GOMAXPROCS 2,4,8,16. Every relay runs in a child process with a journal: a relay that dies is reported "
+            "(relay-inner-crash-<pass>) with the panic and the chunks the killing run had been fed; malformed:* counts handshake lines with the colon first "
+            "and other malformed shapes"
+            "; group e2e-tmux-relay: the real `trzsz -r` inside a pane of a real tmux server between the in-process client and trz/tsz (handshake parked and flushed through bypassTmuxChan to the client tty): tree identical, names, stop, status-interval restored after the relay exits",
     "trusted": ["modelled, not verified: the Go memory model is taken as sequentially consistent at the granularity of one atomic/lock/channel/buffer operation; "
                 "channel sends never block (a blocking send only removes schedules); readLine is abstracted to 'consumes some prefix of the parked bytes, "
                 "then accepts, rejects or waits' (its parsing is C03/C16); the detector is an arbitrary per-chunk rewriting (C06); "
@@ -33,7 +39,7 @@ PROP = {
     "timeout": 900,
 }
 TEXT = {
-    "text": "Machine-checked proof over an interleaving model of the relay (input reader, output reader, handshake worker, one step per atomic/lock/channel/buffer operation, every schedule, every arrival pattern, every handshake outcome, any number of transfers): what each side's writer receives is the other side's input with exactly the consumed handshake lines removed and the relay's own lines inserted, everything else in order, nothing lost, duplicated or crossing sides; standby is the identity; without the status re-read under the lock the invariant is violated (explicit schedule), and so it is without the expected-state guard of the reset (explicit schedule; the guard's presence is regenerated from the source). The model's program points are pinned to the current source by a regenerated synchronisation skeleton. The real relay is run over pipes with scripted peers, also under seeded schedule perturbation injected by go build -overlay, and judged by a direct conservation oracle; hundreds of those executions are logged operation by operation and replayed on the extracted model (trace validation): a proved theorem says an accepted trace is a path of the model, so the invariant holds in every state of the executions actually observed, and an execution the model cannot replay is reported with the first offending operation.",
+    "text": "Machine-checked proof over an interleaving model of the relay (input reader, output reader, handshake worker, one step per atomic/lock/channel/buffer operation, every schedule, every arrival pattern, every handshake outcome, any number of transfers): what each side's writer receives is the other side's input with exactly the consumed handshake lines removed and the relay's own lines inserted, everything else in order, nothing lost, duplicated or crossing sides; standby is the identity; without the status re-read under the lock the invariant is violated (explicit schedule), and so it is without the expected-state guard of the reset (explicit schedule; the guard's presence is regenerated from the source), and without the publication of 'handshaking' in front of the forward of the trigger there is a schedule after which no thread of the relay can move while bytes are parked (explicit; the position of the store is regenerated). The model's program points are pinned to the current source by a regenerated synchronisation skeleton. The real relay is run over pipes with scripted peers, also under seeded schedule perturbation injected by go build -overlay, and judged by a direct conservation oracle; hundreds of those executions are logged operation by operation and replayed on the extracted model (trace validation): a proved theorem says an accepted trace is a path of the model, so the invariant holds in every state of the executions actually observed, and an execution the model cannot replay is reported with the first offending operation.",
     "note": "Trusted: Coq kernel, skeleton translator, overlay instrumenter, Go harness. Not covered: tunnel relay threads, blocking/liveness (C11/C14), end-marker split across reads (C14).",
     "technique": "Coq proof (inductive invariant over an interleaving transition system with ghost history) + regenerated synchronisation skeleton + direct oracle on the implementation under overlay-injected schedule perturbation + trace validation (observed executions replayed on the extracted transition function)",
 }
